@@ -161,7 +161,9 @@ func (m *monitor) member(st *vstate, v *fpb.Value) *mismatch {
 				old := st.last.GetIntValue().GetValue()
 				lo, hi := clampI(old+d.Range.DeltaMin, d.Range.Minimum, d.Range.Maximum), clampI(old+d.Range.DeltaMax, d.Range.Minimum, d.Range.Maximum)
 				if x < lo || x > hi {
-					m.c("diag_value_step_outside_documented_delta")
+					if mm := m.valueStep(bad, fmt.Sprint(old), fmt.Sprint(x), fmt.Sprint(lo), fmt.Sprint(hi)); mm != nil {
+						return mm
+					}
 				}
 			}
 		case *fpb.IntValue_List:
@@ -194,7 +196,9 @@ func (m *monitor) member(st *vstate, v *fpb.Value) *mismatch {
 				mn, mx := int64(d.Range.Minimum), int64(d.Range.Maximum)
 				lo, hi := clampI(old+d.Range.DeltaMin, mn, mx), clampI(old+d.Range.DeltaMax, mn, mx)
 				if int64(x) < lo || int64(x) > hi {
-					m.c("diag_value_step_outside_documented_delta")
+					if mm := m.valueStep(bad, fmt.Sprint(old), fmt.Sprint(x), fmt.Sprint(lo), fmt.Sprint(hi)); mm != nil {
+						return mm
+					}
 				}
 			}
 		case *fpb.UintValue_List:
@@ -227,7 +231,9 @@ func (m *monitor) member(st *vstate, v *fpb.Value) *mismatch {
 				tol := 1e-9 * (math.Abs(old) + math.Abs(d.Range.DeltaMin) + math.Abs(d.Range.DeltaMax) + 1)
 				lo, hi := clampF(old+d.Range.DeltaMin, d.Range.Minimum, d.Range.Maximum), clampF(old+d.Range.DeltaMax, d.Range.Minimum, d.Range.Maximum)
 				if x < lo-tol || x > hi+tol {
-					m.c("diag_value_step_outside_documented_delta")
+					if mm := m.valueStep(bad, fmt.Sprint(old), fmt.Sprint(x), fmt.Sprint(lo), fmt.Sprint(hi)); mm != nil {
+						return mm
+					}
 				}
 			}
 		case *fpb.DoubleValue_List:
@@ -283,6 +289,23 @@ func (m *monitor) member(st *vstate, v *fpb.Value) *mismatch {
 		return konst()
 	case "delete":
 		m.c("judged_delete")
+	}
+	return nil
+}
+
+// valueDeltaDeciding: fake.proto documents cumulative ranges ("subsequent value
+// is value + delta ... values will saturate at the boundaries"), but the
+// property statement only bounds generated values by their range and
+// timestamp steps by their deltas. A generated value whose step from the
+// previous one is outside clamp(old + [delta_min, delta_max]) is therefore
+// only counted (evidence counter diag_value_step_outside_documented_delta)
+// unless this switch is turned on.
+const valueDeltaDeciding = false
+
+func (m *monitor) valueStep(bad func(sig, f string, a ...interface{}) *mismatch, old, x, lo, hi string) *mismatch {
+	m.c("diag_value_step_outside_documented_delta")
+	if valueDeltaDeciding {
+		return bad("value-delta", "cumulative range: value moved from %s to %s, documented reachable interval [%s, %s]", old, x, lo, hi)
 	}
 	return nil
 }
